@@ -1430,3 +1430,86 @@ def expand_array_try_from(doc):
             n += 1
     doc.setdefault('meta', {})['expanded_array_try_from'] = n
     return doc
+
+
+
+# N6 a *new* closure (not a body of the pinned tree) whose every use was expanded in place is dead code: the closure value is
+#    still built, but nothing can call it — it is never handed to a call, stored, or returned.  Its body is no body of its
+#    own any more (its statements live on, inlined, in the parent, where the rules look at them).
+def drop_dead_closures(doc):
+    pinned = pinned_keys()
+    bodies = doc['bodies']
+    by_key = {b['key']: b for b in bodies}
+    built = {}     # closure key -> live?
+    for b in bodies:
+        for pb in [b] + list(b.get('promoted') or []):
+            blocks = pb['blocks']
+            for blk in blocks:
+                for st in blk['stmts']:
+                    if st.get('k') == 'assign' and st['rv'].get('k') == 'aggregate' and st['rv'].get('agg') == 'closure':
+                        k = st['rv'].get('closure')
+                        live = bool(st['place']['p']) or _closure_escapes(pb, st['place']['l'])
+                        built[k] = built.get(k, False) or live
+    # closure values that appear as constants (zero-capture closures passed by name)
+    txt_live = set()
+    for b in bodies:
+        for blk in b['blocks']:
+            t = blk['term']
+            for x in (t.get('args') or []) + [st.get('rv', {}).get('op') for st in blk['stmts'] if st.get('k') == 'assign'] + \
+                    [f for st in blk['stmts'] if st.get('k') == 'assign' and st['rv'].get('k') == 'aggregate' for f in st['rv']['fields']]:
+                if isinstance(x, dict) and x.get('k') == 'const' and 'closure' in x:
+                    txt_live.add(x['closure'])
+    gone = set()
+    for k, live in built.items():
+        if live or k in pinned or k in txt_live or k not in by_key:
+            continue
+        gone.add(k)
+    # nested closures of a dropped closure go with it
+    for b in bodies:
+        if any(b['key'].startswith(g + '::') for g in gone) and b['key'] not in pinned:
+            gone.add(b['key'])
+    if gone:
+        doc['bodies'] = [b for b in bodies if b['key'] not in gone]
+    doc.setdefault('meta', {})['closures_dropped'] = sorted(gone)
+    return doc
+
+
+def _closure_escapes(b, l0):
+    """does the closure value in local l0 (or a pointer to it) reach a call argument, another aggregate, a return or a store?"""
+    alias = {l0}
+    changed = True
+    while changed:
+        changed = False
+        for blk in b['blocks']:
+            for st in blk['stmts']:
+                if st.get('k') != 'assign' or st['place']['p'] or st['place']['l'] in alias:
+                    continue
+                rv = st['rv']
+                src = None
+                if rv.get('k') == 'use' and rv['op'].get('k') in ('copy', 'move'):
+                    src = rv['op']['place']
+                elif rv.get('k') in ('ref', 'rawptr'):
+                    src = rv['place']
+                elif rv.get('k') == 'cast' and rv['op'].get('k') in ('copy', 'move'):
+                    src = rv['op']['place']
+                if src is not None and src['l'] in alias and all(e == 'deref' for e in src['p']):
+                    alias.add(st['place']['l'])
+                    changed = True
+
+    def whole(op):
+        return isinstance(op, dict) and op.get('k') in ('copy', 'move') and op['place']['l'] in alias and all(e == 'deref' for e in op['place']['p'])
+    if 0 in alias:
+        return True
+    for blk in b['blocks']:
+        for st in blk['stmts']:
+            if st.get('k') != 'assign':
+                continue
+            rv = st['rv']
+            if rv.get('k') == 'aggregate' and any(whole(f) for f in rv['fields']):
+                return True
+            if st['place']['p'] and rv.get('k') == 'use' and whole(rv['op']):
+                return True            # stored into a field / through a pointer
+        t = blk['term']
+        if t.get('k') == 'call' and (any(whole(x) for x in t.get('args', [])) or whole(t.get('func'))):
+            return True
+    return False
